@@ -85,6 +85,13 @@ C02StepFails(c, l) ==
               SameState(Norm(st.pc), Norm(st.pc_expected))>>
        >>)
 
+(* C02 on harvested steps of the repository's own tests (vf/tracer.py): each case is one
+   outermost public call with the projected state before and after; only well-formedness
+   after a call that returned on a well-formed circuit is a verdict (no extra observations) *)
+C02HStepFails(c, l) ==
+  LET st == c.steps[l]
+  IN IF st.ret # "ok" \/ ~WellFormed(HPre(c, l)) THEN {} ELSE WFFails(st.post)
+
 (************************  C19 verdict clauses  ****************************)
 (* documented errors of replace_subcircuit (all CircuitError subclasses raised by
    its validation, the block helpers it calls, rename_gate and the cycle check) *)
